@@ -61,6 +61,8 @@ from vf.props.c17 import spec_resolve, BASES, SYSPREFIX
 MAIN = {main!r}
 FILES = {files!r}
 MODEL = parse_script(MAIN)
+import copy
+MODEL_BEFORE = copy.deepcopy(MODEL)
 KEYS = sorted(FILES)
 
 
@@ -125,6 +127,11 @@ def _run(real, base, sysprefix, states):
 def core_tree(bi, si, states):
     base, sysprefix = _pick(BASES, bi), _pick(SYSPREFIX, si)
     real = _run(True, base, sysprefix, states)
+    if MODEL != MODEL_BEFORE:
+        return False, {{'clause': 'executing includes modified the model', 'base': base, 'system_prefix': sysprefix, 'model': repr(MODEL)[:300]}}
+    again = _run(True, base, sysprefix, states)
+    if again != real:
+        return False, {{'clause': 'second execution of the same model differs', 'base': base, 'first': repr(real)[:300], 'second': repr(again)[:300]}}
     ref = _run(False, base, sysprefix, states)
     if real != ref:
         names = ['outcome', 'fetch sequence', 'effect trace', 'final globals']
